@@ -9,7 +9,8 @@ TEXT = {
  'C02': dict(level="Per-step theorems (C02_entityAdd, _entityDelete, _updatePose, _custom, _action, _assetAdd and the _refused/_dropped companions) prove that an "
                    "accepted change is delivered exactly once to every other member and never to its author, and a refused one to nobody, for every session "
                    "state with pairwise distinct connections - an invariant proved for every reachable state (run_WF). Sequential histories only; the "
-                   "concurrent clause is explored, not proved (every interleaving with at most two preemptions of 2-3 concurrent requests at lock granularity on the real "
+                   "concurrent clause: C02_conc_stayer_gets_each_relay_once (Model/Relay.lean: a relay is one critical section under the participants lock; a member that stays gets every relay exactly once "
+                   "whatever departures interleave); beyond that model it is explored, not proved (every interleaving with at most two preemptions of 2-3 concurrent requests at lock granularity on the real "
                    "handlers: explained by a serial order of the model, or else every accepted change relayed exactly once to every member that stays); the "
                    "per-sender order clause is measured over real sockets (wire scenario order).",
              note=_std_note, technique=_tech),
